@@ -5,6 +5,7 @@
 #include <cstdint>
 #include <vector>
 #include <array>
+#include <algorithm>
 
 namespace spec {
 
@@ -29,6 +30,59 @@ inline uint16_t crc16(const uint8_t* p, size_t n)
         for (int i = 0; i < 8; ++i) r = (r & 0x8000) ? uint16_t((r << 1) ^ 0x5935) : uint16_t(r << 1);
     }
     return r;
+}
+
+// ---- convolutional code (specification): K=5, G1=031, G2=027; state = last 4 input bits ----
+inline int par5(unsigned x) { x &= 31; x ^= x >> 4; x ^= x >> 2; x ^= x >> 1; return x & 1; }
+inline void conv_out(unsigned state, int bit, int& o1, int& o2)
+{
+    unsigned m = ((state << 1) | unsigned(bit)) & 31;
+    o1 = par5(m & 031); o2 = par5(m & 027);
+}
+inline long long soft_dist1(int L, int bit, int r) { if (r == 0) return 0; int e = bit ? L : -L; return e > r ? e - r : r - e; }
+
+// minimum total soft distance over all input sequences from state 0 (free end state), optionally with the first
+// `prefix.size()` input bits forced.  Plain forward dynamic programme, written independently of the repository.
+inline long long viterbi_min(const std::vector<int>& recv, int L, const std::vector<int>& prefix)
+{
+    const long long INF = 1LL << 60;
+    std::vector<long long> m(16, INF), n(16);
+    m[0] = 0;
+    size_t T = recv.size() / 2;
+    for (size_t t = 0; t < T; ++t) {
+        std::fill(n.begin(), n.end(), INF);
+        for (unsigned s = 0; s < 16; ++s) {
+            if (m[s] >= INF) continue;
+            for (int b = 0; b < 2; ++b) {
+                if (t < prefix.size() && prefix[t] != b) continue;
+                int o1, o2; conv_out(s, b, o1, o2);
+                long long c = m[s] + soft_dist1(L, o1, recv[2 * t]) + soft_dist1(L, o2, recv[2 * t + 1]);
+                unsigned ns = ((s << 1) | unsigned(b)) & 15;
+                if (c < n[ns]) n[ns] = c;
+            }
+        }
+        m.swap(n);
+    }
+    long long best = INF;
+    for (auto x : m) best = std::min(best, x);
+    return best;
+}
+
+// brute force over all 2^T input sequences (T <= 20)
+inline long long brute_min(const std::vector<int>& recv, int L)
+{
+    size_t T = recv.size() / 2;
+    long long best = 1LL << 60;
+    for (unsigned long u = 0; u < (1ul << T); ++u) {
+        unsigned s = 0; long long c = 0;
+        for (size_t t = 0; t < T; ++t) {
+            int b = (u >> t) & 1, o1, o2; conv_out(s, b, o1, o2);
+            c += soft_dist1(L, o1, recv[2 * t]) + soft_dist1(L, o2, recv[2 * t + 1]);
+            s = ((s << 1) | unsigned(b)) & 15;
+        }
+        best = std::min(best, c);
+    }
+    return best;
 }
 
 } // namespace spec
